@@ -14,7 +14,8 @@
                    then deleted undelivered (customEvent never runs, pending is never decremented).
      ADone         customEvent: BaseHandler::process has returned (the sinks have the message),
                    THEN pending--.
-     AResetStart   resetOwnThread: lock; `if (!m_thread) return`.
+     AResetStart i resetOwnThread called by stopper thread i: lock; `if (!m_thread) return`.
+                   SEVERAL threads may be inside resetOwnThread at once (one entry of `stops` each).
      AResetCheck   the loop test `pending > 0`: true -> unlock and sleep (RSleep); false -> quit,
                    wait/terminate, clear thread, clear worker, unlock (RDone).  The mutex is held
                    from the test to the end, hence one step.
@@ -27,97 +28,118 @@
 From Coq Require Import List Arith Bool.
 Import ListNotations.
 
-Inductive rstate := RIdle | RCheck | RSleep | RDone.
+(* where one caller of resetOwnThread is.  RError: it executed `m_thread->quit()` although the
+   thread had been cleared by another stop — the null dereference of the code before a579b9f.
+   With the re-test after the relock it is unreachable (ShutdownProofs.concurrent_stops_safe). *)
+Inductive rstate := RIdle | RCheck | RSleep | RDone | RError.
 
 Record st := mk_st {
   app : bool;              (* QCoreApplication::instance() != nullptr *)
-  worker : bool;           (* m_worker != nullptr (and its thread runs) *)
+  worker : bool;           (* m_thread / m_worker non-null (and the thread runs) *)
   queue : list nat;        (* posted LogEvents not yet handed to customEvent, FIFO *)
   inflight : option nat;   (* message customEvent is processing *)
   pending : nat;           (* m_pendingCount *)
-  mtx : bool;              (* m_mutex held by resetOwnThread *)
-  rpc : rstate;            (* where resetOwnThread is *)
+  mtx : bool;              (* m_mutex held by a caller of resetOwnThread *)
+  stops : list rstate;     (* one entry per thread that ever calls resetOwnThread (stopper) *)
   log : list nat;          (* what the sinks have received, in order *)
   accepted : list nat      (* messages whose process() call took place, in order *)
 }.
 
 Inductive act :=
-| APost (m : nat) | ATake | ADone | AResetStart | AResetCheck | AResetWake | AAppDie | AMove.
+| APost (m : nat) | ATake | ADone
+| AResetStart (i : nat) | AResetCheck (i : nat) | AResetWake (i : nat)   (* i : which stopper *)
+| AAppDie | AMove.
 
 Definition opt_list (o : option nat) : list nat := match o with Some x => [x] | None => [] end.
 
-Definition step (s : st) (a : act) : option st :=
+Fixpoint upd (l : list rstate) (i : nat) (v : rstate) : list rstate :=
+  match l, i with
+  | [], _ => []
+  | _ :: t, O => v :: t
+  | x :: t, S j => x :: upd t j v
+  end.
+Definition startable (r : rstate) : bool := match r with RIdle | RDone => true | _ => false end.
+(* moveToOwnThread starts a new stop/start round: stops that had returned are idle callers again *)
+Definition undone (r : rstate) : rstate := match r with RDone => RIdle | x => x end.
+
+(* rc : the code re-tests `if (!m_thread) return;` after the relock in the wait loop (translated
+   from the source: rechecks_after_relock src_skeleton) *)
+Definition step (rc : bool) (s : st) (a : act) : option st :=
   match a with
   | APost m =>
       if mtx s then None else
       if worker s
-      then Some (mk_st (app s) true (queue s ++ [m]) (inflight s) (S (pending s)) false (rpc s)
+      then Some (mk_st (app s) true (queue s ++ [m]) (inflight s) (S (pending s)) false (stops s)
                        (log s) (accepted s ++ [m]))
-      else Some (mk_st (app s) false (queue s) (inflight s) (pending s) false (rpc s)
+      else Some (mk_st (app s) false (queue s) (inflight s) (pending s) false (stops s)
                        (log s ++ [m]) (accepted s ++ [m]))
   | ATake =>
       match app s, worker s, inflight s, queue s with
       | true, true, None, m :: q =>
-          Some (mk_st true true q (Some m) (pending s) (mtx s) (rpc s) (log s) (accepted s))
+          Some (mk_st true true q (Some m) (pending s) (mtx s) (stops s) (log s) (accepted s))
       | _, _, _, _ => None
       end
   | ADone =>
       match inflight s with
-      | Some m => Some (mk_st (app s) (worker s) (queue s) None (pred (pending s)) (mtx s) (rpc s)
+      | Some m => Some (mk_st (app s) (worker s) (queue s) None (pred (pending s)) (mtx s) (stops s)
                               (log s ++ [m]) (accepted s))
       | None => None
       end
-  | AResetStart =>
-      match rpc s, mtx s with
-      | RIdle, false | RDone, false =>
-          if worker s
-          then Some (mk_st (app s) true (queue s) (inflight s) (pending s) true RCheck (log s) (accepted s))
-          else Some (mk_st (app s) false (queue s) (inflight s) (pending s) false RDone (log s) (accepted s))
-      | _, _ => None
+  | AResetStart i =>      (* lock; if (!m_thread) return; *)
+      match nth_error (stops s) i with
+      | Some r =>
+          if startable r && negb (mtx s) then
+            if worker s
+            then Some (mk_st (app s) true (queue s) (inflight s) (pending s) true (upd (stops s) i RCheck) (log s) (accepted s))
+            else Some (mk_st (app s) false (queue s) (inflight s) (pending s) false (upd (stops s) i RDone) (log s) (accepted s))
+          else None
+      | None => None
       end
-  | AResetCheck =>
-      match rpc s with
-      | RCheck =>
-          if Nat.ltb 0 (pending s)
-          then Some (mk_st (app s) (worker s) (queue s) (inflight s) (pending s) false RSleep (log s) (accepted s))
-          else Some (mk_st (app s) false (queue s) (inflight s) (pending s) false RDone (log s) (accepted s))
+  | AResetCheck i =>      (* the loop test, holding the mutex *)
+      match nth_error (stops s) i with
+      | Some RCheck =>
+          if worker s then
+            if Nat.ltb 0 (pending s)
+            then (* unlock; sleep *)
+                 Some (mk_st (app s) true (queue s) (inflight s) (pending s) false (upd (stops s) i RSleep) (log s) (accepted s))
+            else (* quit; wait/terminate; disconnect; clear thread; clear worker; unlock *)
+                 Some (mk_st (app s) false (queue s) (inflight s) (pending s) false (upd (stops s) i RDone) (log s) (accepted s))
+          else (* m_thread->quit() on a cleared QPointer *)
+               Some (mk_st (app s) false (queue s) (inflight s) (pending s) (mtx s) (upd (stops s) i RError) (log s) (accepted s))
       | _ => None
       end
-  | AResetWake =>
-      match rpc s, mtx s with
-      | RSleep, false =>
-          if worker s
-          then Some (mk_st (app s) true (queue s) (inflight s) (pending s) true RCheck (log s) (accepted s))
-          else (* `if (!m_thread) return;` after the relock: another stop completed meanwhile *)
-               Some (mk_st (app s) false (queue s) (inflight s) (pending s) false RDone (log s) (accepted s))
-      | _, _ => None
+  | AResetWake i =>       (* relock after the sleep; with rc: if (!m_thread) return; *)
+      match nth_error (stops s) i with
+      | Some RSleep =>
+          if mtx s then None else
+          if worker s || negb rc
+          then Some (mk_st (app s) (worker s) (queue s) (inflight s) (pending s) true (upd (stops s) i RCheck) (log s) (accepted s))
+          else Some (mk_st (app s) false (queue s) (inflight s) (pending s) false (upd (stops s) i RDone) (log s) (accepted s))
+      | _ => None
       end
   | AAppDie =>
-      Some (mk_st false (worker s) (queue s) (inflight s) (pending s) (mtx s) (rpc s) (log s) (accepted s))
-  | AMove =>
-      match rpc s, mtx s, worker s with
-      | RIdle, false, false | RDone, false, false =>
-          Some (mk_st (app s) true (queue s) (inflight s) (pending s) false RIdle (log s) (accepted s))
-      | _, _, _ => None
-      end
+      Some (mk_st false (worker s) (queue s) (inflight s) (pending s) (mtx s) (stops s) (log s) (accepted s))
+  | AMove =>              (* moveToOwnThread: lock; if (m_thread) return; new thread and worker *)
+      if mtx s || worker s then None
+      else Some (mk_st (app s) true (queue s) (inflight s) (pending s) false (map undone (stops s)) (log s) (accepted s))
   end.
 
 (* an arbitrary action list: actions that are not enabled are skipped *)
-Fixpoint run (s : st) (tr : list act) : st :=
+Fixpoint run (rc : bool) (s : st) (tr : list act) : st :=
   match tr with
   | [] => s
-  | a :: r => match step s a with Some s' => run s' r | None => run s r end
+  | a :: r => match step rc s a with Some s' => run rc s' r | None => run rc s r end
   end.
 
 (* every action must be enabled *)
-Fixpoint run_strict (s : st) (tr : list act) : option st :=
+Fixpoint run_strict (rc : bool) (s : st) (tr : list act) : option st :=
   match tr with
   | [] => Some s
-  | a :: r => match step s a with Some s' => run_strict s' r | None => None end
+  | a :: r => match step rc s a with Some s' => run_strict rc s' r | None => None end
   end.
 
-(* a : an application object exists; w : asynchronous mode already switched on *)
-Definition init (a w : bool) : st := mk_st a w [] None 0 false RIdle [] [].
+(* a : an application object exists; w : asynchronous mode already on; k : number of stoppers *)
+Definition init (a w : bool) (k : nat) : st := mk_st a w [] None 0 false (repeat RIdle k) [] [].
 
 (* the backlog can never be handed to the worker any more (decidable form of "the stop hangs") *)
 Definition stuck_b (s : st) : bool :=
@@ -125,14 +147,16 @@ Definition stuck_b (s : st) : bool :=
   && match inflight s with None => true | Some _ => false end
   && match queue s with [] => false | _ :: _ => true end.
 
-(* termination measure of the worker with a live application *)
+Definition is_active (r : rstate) : bool := match r with RCheck | RSleep => true | _ => false end.
+Definition errorb (s : st) : bool := existsb (fun r => match r with RError => true | _ => false end) (stops s).
+
+(* termination measures: of the worker with a live application, and of the stoppers once the
+   backlog is empty *)
 Definition mu (s : st) : nat := 2 * length (queue s) + length (opt_list (inflight s)).
-(* the schedule that lets the worker finish the backlog and the stop complete *)
+Definition sw (r : rstate) : nat := match r with RSleep => 2 | RCheck => 1 | _ => 0 end.
+Fixpoint sm (l : list rstate) : nat := match l with [] => 0 | r :: t => sw r + sm t end.
 Fixpoint drain_schedule (q : nat) : list act :=
   match q with O => [] | S q' => ATake :: ADone :: drain_schedule q' end.
-Definition finish_schedule (s : st) : list act :=
-  (match inflight s with Some _ => [ADone] | None => [] end) ++ drain_schedule (length (queue s))
-  ++ (match rpc s with RSleep => [AResetWake] | _ => [] end) ++ [AResetCheck].
 
 (* ------------------------------------------------------------------ recorded traces --------- *)
 (* What h_shutdown records, totally ordered by the order of its write(2) calls:
@@ -140,18 +164,19 @@ Definition finish_schedule (s : st) : list act :=
      ETake            hook worker.before_process
      EDeliver m sync  the recording sink has finished with m (sync = on the caller's thread)
      EDone            hook worker.decremented
-     EResetLocked     hook reset.locked (past `if (!m_thread) return`, mutex held)
-     EResetWaiting    hook reset.waiting (loop test was true; unlock/sleep/relock follow)
-     EResetQuit       hook reset.quit (loop test was false; quit/wait/clear follow)
-     EStopEnd         a stop is known to have returned (explicit resetOwnThread(), or exec()
-                      returned after aboutToQuit)
+     EResetLocked i   hook reset.locked on stopper thread i (past `if (!m_thread) return`, mutex held)
+     EResetWaiting i  hook reset.waiting (loop test was true; unlock/sleep/relock follow)
+     EResetQuit i     hook reset.quit (loop test was false; quit/wait/clear follow)
+     EStopEnd i       a stop call of thread i is known to have returned (explicit resetOwnThread(),
+                      or exec() returned after aboutToQuit)
      EAppGone         ~QCoreApplication has returned
      EMove            moveToOwnThread() (called with the logger lock held, so no post interleaves)
      EReturned m      the logging call for m has returned to the producer
      EExit            static destruction is over (atexit handler registered before the logger) *)
 Inductive ev :=
 | EPost (m : nat) | ETake | EDeliver (m : nat) (sync : bool) | EDone
-| EResetLocked | EResetWaiting | EResetQuit | EStopEnd | EAppGone | EMove | EReturned (m : nat) | EExit.
+| EResetLocked (i : nat) | EResetWaiting (i : nat) | EResetQuit (i : nat) | EStopEnd (i : nat)
+| EAppGone | EMove | EReturned (m : nat) | EExit.
 
 Record acc := mk_acc { ms : st; obs : list nat }.
 
@@ -163,18 +188,18 @@ Fixpoint list_eqb (a b : list nat) : bool :=
   end.
 Definition mem (m : nat) (l : list nat) : bool := existsb (Nat.eqb m) l.
 
-Definition wake_if_asleep (s : st) : list act :=
-  match rpc s with RSleep => [AResetWake] | _ => [] end.
+Definition wake_if_asleep (s : st) (i : nat) : list act :=
+  match nth_error (stops s) i with Some RSleep => [AResetWake i] | _ => [] end.
 
-Definition astep (a : acc) (e : ev) : option acc :=
+Definition astep (rc : bool) (a : acc) (e : ev) : option acc :=
   let s := ms a in
   match e with
   | EPost m =>
       if mem m (accepted s) then None else
       if negb (worker s) && negb (list_eqb (log s) (obs a)) then None else
-      match step s (APost m) with Some s' => Some (mk_acc s' (obs a)) | None => None end
+      match step rc s (APost m) with Some s' => Some (mk_acc s' (obs a)) | None => None end
   | ETake =>
-      match step s ATake with Some s' => Some (mk_acc s' (obs a)) | None => None end
+      match step rc s ATake with Some s' => Some (mk_acc s' (obs a)) | None => None end
   | EDeliver m true =>
       if negb (worker s) && list_eqb (log s) (obs a ++ [m]) then Some (mk_acc s (obs a ++ [m])) else None
   | EDeliver m false =>
@@ -183,39 +208,47 @@ Definition astep (a : acc) (e : ev) : option acc :=
       | None => None
       end
   | EDone =>
-      match step s ADone with
+      match step rc s ADone with
       | Some s' => if list_eqb (log s') (obs a) then Some (mk_acc s' (obs a)) else None
       | None => None
       end
-  | EResetLocked =>
+  | EResetLocked i =>
       if worker s
-      then match step s AResetStart with Some s' => Some (mk_acc s' (obs a)) | None => None end
+      then match step rc s (AResetStart i) with Some s' => Some (mk_acc s' (obs a)) | None => None end
       else None
-  | EResetWaiting =>
-      match run_strict s (wake_if_asleep s ++ [AResetCheck]) with
-      | Some s' => match rpc s' with RSleep => Some (mk_acc s' (obs a)) | _ => None end
+  | EResetWaiting i =>
+      match run_strict rc s (wake_if_asleep s i ++ [AResetCheck i]) with
+      | Some s' => match nth_error (stops s') i with Some RSleep => Some (mk_acc s' (obs a)) | _ => None end
       | None => None
       end
-  | EResetQuit =>
-      match run_strict s (wake_if_asleep s ++ [AResetCheck]) with
-      | Some s' => match rpc s' with
-                   | RDone => if list_eqb (obs a) (accepted s') then Some (mk_acc s' (obs a)) else None
+  | EResetQuit i =>
+      match run_strict rc s (wake_if_asleep s i ++ [AResetCheck i]) with
+      | Some s' => match nth_error (stops s') i with
+                   | Some RDone => if list_eqb (obs a) (accepted s') then Some (mk_acc s' (obs a)) else None
                    | _ => None
                    end
       | None => None
       end
-  | EStopEnd =>
-      match rpc s, worker s with
-      | RDone, false => Some a
-      | RIdle, false => match step s AResetStart with Some s' => Some (mk_acc s' (obs a)) | None => None end
-      | _, _ => None
+  | EStopEnd i =>
+      match nth_error (stops s) i with
+      | Some RDone => Some a
+      | Some RIdle =>      (* no thread: returned at once, no hook fired *)
+          if worker s then None
+          else match step rc s (AResetStart i) with Some s' => Some (mk_acc s' (obs a)) | None => None end
+      | Some RSleep =>     (* woke up, found no thread (another stop completed), returned: no hook fired *)
+          if worker s then None
+          else match step rc s (AResetWake i) with
+               | Some s' => match nth_error (stops s') i with Some RDone => Some (mk_acc s' (obs a)) | _ => None end
+               | None => None
+               end
+      | _ => None
       end
   | EAppGone =>
-      match step s AAppDie with Some s' => Some (mk_acc s' (obs a)) | None => None end
+      match step rc s AAppDie with Some s' => Some (mk_acc s' (obs a)) | None => None end
   | EMove =>
       if worker s then Some a
       else if list_eqb (log s) (obs a)   (* no synchronous delivery is under way: it holds the mutex *)
-           then match step s AMove with Some s' => Some (mk_acc s' (obs a)) | None => None end
+           then match step rc s AMove with Some s' => Some (mk_acc s' (obs a)) | None => None end
            else None
   | EReturned m => if mem m (accepted s) then Some a else None
   | EExit => if negb (worker s) && list_eqb (obs a) (accepted s) then Some a else None
@@ -225,13 +258,13 @@ Definition astep (a : acc) (e : ev) : option acc :=
    the model after the ones before it (the state reached before it is returned) *)
 Inductive verdict := Accepted (a : acc) | Rejected (k : nat) (a : acc).
 
-Fixpoint accept_from (k : nat) (a : acc) (evs : list ev) : verdict :=
+Fixpoint accept_from (rc : bool) (k : nat) (a : acc) (evs : list ev) : verdict :=
   match evs with
   | [] => Accepted a
-  | e :: r => match astep a e with Some a' => accept_from (S k) a' r | None => Rejected k a end
+  | e :: r => match astep rc a e with Some a' => accept_from rc (S k) a' r | None => Rejected k a end
   end.
-Definition accept_shutdown (app0 worker0 : bool) (evs : list ev) : verdict :=
-  accept_from 0 (mk_acc (init app0 worker0) []) evs.
+Definition accept_shutdown (rc : bool) (app0 worker0 : bool) (nstop : nat) (evs : list ev) : verdict :=
+  accept_from rc 0 (mk_acc (init app0 worker0 nstop) []) evs.
 
 (* boolean oracle on the observations alone (no model state): the delivered list is a prefix of
    the posted list *)
@@ -265,6 +298,18 @@ Record skeleton := mk_skeleton {
   sk_reset : list instr; sk_move : list instr; sk_dtor : list instr;
   sk_process : list instr; sk_custom_event : list instr }.
 
+(* does the wait loop re-test the thread after re-locking?  (SRelock ... SRetIfNoThread inside
+   the SWhilePending body of resetOwnThread) *)
+Fixpoint has_recheck (l : list instr) (seen_relock : bool) : bool :=
+  match l with
+  | [] => false
+  | SRelock :: t => has_recheck t true
+  | SRetIfNoThread :: t => seen_relock || has_recheck t seen_relock
+  | _ :: t => has_recheck t seen_relock
+  end.
+Definition rechecks_after_relock (sk : skeleton) : bool :=
+  existsb (fun x => match x with SWhilePending b => has_recheck b false | _ => false end) (sk_reset sk).
+
 Definition modelled_skeleton : skeleton := {|
   sk_reset := [SLock; SRetIfNoThread; SWhilePending [SUnlock; SSleep; SRelock; SRetIfNoThread]; SQuit;
                SWaitElseTerminate; SDisconnectAboutToQuit; SClearThread; SClearWorker; SUnlock];
@@ -274,3 +319,10 @@ Definition modelled_skeleton : skeleton := {|
   sk_dtor := [SCallReset];
   sk_process := [SLock; SIfWorker [SIncPending; SPostEvent] [SProcessBase]; SReturn; SUnlock];
   sk_custom_event := [SIfLogEvent [SIfCast [SProcessBase; SDecPending]]] |}.
+
+(* resetOwnThread as it was before commit a579b9f (no re-test after the relock) *)
+Definition pre_repair_skeleton : skeleton := {|
+  sk_reset := [SLock; SRetIfNoThread; SWhilePending [SUnlock; SSleep; SRelock]; SQuit;
+               SWaitElseTerminate; SDisconnectAboutToQuit; SClearThread; SClearWorker; SUnlock];
+  sk_move := sk_move modelled_skeleton; sk_dtor := sk_dtor modelled_skeleton;
+  sk_process := sk_process modelled_skeleton; sk_custom_event := sk_custom_event modelled_skeleton |}.
